@@ -161,8 +161,15 @@ fn opt<T: std::fmt::Display>(o: Option<T>) -> String {
     }
 }
 
-fn find_exp<'a>(a: &'a [&'a str]) -> Option<&'a str> {
-    a.iter().find_map(|t| t.strip_prefix("exp="))
+/// the generator's expectation token `exp=<…>@<hash of the hex token>`: only honoured while the
+/// bytes are the ones it was computed for (the shrinker and the neighbourhood search edit tokens)
+pub fn find_exp<'a>(a: &'a [&'a str], hex_tok: &str) -> Option<&'a str> {
+    let t = a.iter().find_map(|t| t.strip_prefix("exp="))?;
+    let (body, h) = t.rsplit_once('@')?;
+    if h.parse::<u64>().ok()? == crate::util::str_hash(hex_tok) { Some(body) } else { None }
+}
+pub fn exp_tok(body: &str, hex_tok: &str) -> String {
+    format!("exp={body}@{}", crate::util::str_hash(hex_tok))
 }
 
 pub fn handle(op: &str, a: &[&str]) -> Option<String> {
@@ -183,7 +190,7 @@ pub fn handle(op: &str, a: &[&str]) -> Option<String> {
             let mut raw = EntriesRaw::new(EndianSlice::new(&bs, e), enc, &abbrevs, UnitOffset(0));
             let res: gimli::Result<Attribute<R>> = raw.read_attribute(spec);
             let consumed = raw.next_offset().0;
-            let exp = find_exp(a);
+            let exp = find_exp(a, h);
             let mut oracle: Option<String> = None;
             let reply = match &res {
                 Ok(attr) => {
@@ -283,7 +290,7 @@ pub fn handle(op: &str, a: &[&str]) -> Option<String> {
                     _ => {}
                 }
             }
-            if let Some(x) = find_exp(a) {
+            if let Some(x) = find_exp(a, h) {
                 match &r {
                     Ok(()) => {
                         if x.parse::<usize>().ok() != Some(rpos) {
@@ -592,7 +599,8 @@ pub fn gen(ctx: &Ctx, emit: &mut dyn FnMut(String)) {
             Some((mut bs, p)) => {
                 let n = bs.len();
                 bs.extend(rng.bytes_below(4));
-                emit(format!("attr-parse {} {name} {form} {imps} {} exp={n}:{}", c.toks(), hex(&bs), p.s()));
+                let hx = hex(&bs);
+                emit(format!("attr-parse {} {name} {form} {imps} {hx} {}", c.toks(), exp_tok(&format!("{n}:{}", p.s()), &hx)));
                 // malformed neighbours: a truncation, a one-byte mutation (no expectation)
                 if n > 0 && rng.chance(1, 3) {
                     let k = rng.below(n as u64) as usize;
@@ -727,7 +735,8 @@ pub fn gen(ctx: &Ctx, emit: &mut dyn FnMut(String)) {
         bytes.extend(rng.bytes_below(5));
         let specs_s = if specs.is_empty() { "-".to_string() } else { specs.join(",") };
         if valid {
-            emit(format!("attr-skip {} {specs_s} {} exp={total}", c.toks(), hex(&bytes)));
+            let hx = hex(&bytes);
+            emit(format!("attr-skip {} {specs_s} {hx} {}", c.toks(), exp_tok(&total.to_string(), &hx)));
         } else {
             emit(format!("attr-skip {} {specs_s} {}", c.toks(), hex(&bytes)));
         }
@@ -766,7 +775,8 @@ pub fn gen(ctx: &Ctx, emit: &mut dyn FnMut(String)) {
                     b1.extend(b2);
                     let n = b1.len();
                     b1.extend(rng.bytes_below(3));
-                    emit(format!("attr-skip {} {},{} {} exp={n}", c.toks(), spec_s(3, f1, i1), spec_s(0x55, f2, i2), hex(&b1)));
+                    let hx = hex(&b1);
+                    emit(format!("attr-skip {} {},{} {hx} {}", c.toks(), spec_s(3, f1, i1), spec_s(0x55, f2, i2), exp_tok(&n.to_string(), &hx)));
                 }
             }
         }
